@@ -21,24 +21,25 @@ def run(chk):
     r1(chk, prog)
     own.rule_leaks(chk, prog, "C08.R2")
     r3(chk, prog)
-    # R4 failure atomicity of the string set operation (shared with C11): a failed set must not have freed or written anything
-    from . import c11
-    c11.r_set(chk, prog, prog.module("json_object.c"))
-    # failure atomicity of the array list (shared with C07): a failed growth / insert / put has written nothing, so the caller's
-    # list is still the valid list it was
-    from . import c07
-    ma = prog.module("arraylist.c")
-    chk.require(ma is not None, "arraylist.c not in the build")
-    c07.r_expand(chk, prog, ma)
-    c07.r_functions(chk, prog, ma)
-    # the same for the hash table (a failed resize has not written the old table) and the print buffer (a refused or failed
-    # extension has written no field), shared with C06 / C19
-    from . import c06, c19
-    ml, mp = prog.module("linkhash.c"), prog.module("printbuf.c")
-    chk.require(ml is not None and mp is not None, "linkhash.c / printbuf.c not in the build")
-    c06.r3_resize(chk, prog, ml)
-    c19.r_extend(chk, prog, mp)
-    c19.r_writers(chk, prog, mp)
+    with chk.shared():
+        # R4 failure atomicity of the string set operation (shared with C11): a failed set must not have freed or written anything
+        from . import c11
+        c11.r_set(chk, prog, prog.module("json_object.c"))
+        # failure atomicity of the array list (shared with C07): a failed growth / insert / put has written nothing, so the caller's
+        # list is still the valid list it was
+        from . import c07
+        ma = prog.module("arraylist.c")
+        chk.require(ma is not None, "arraylist.c not in the build")
+        c07.r_expand(chk, prog, ma)
+        c07.r_functions(chk, prog, ma)
+        # the same for the hash table (a failed resize has not written the old table) and the print buffer (a refused or failed
+        # extension has written no field), shared with C06 / C19
+        from . import c06, c19
+        ml, mp = prog.module("linkhash.c"), prog.module("printbuf.c")
+        chk.require(ml is not None and mp is not None, "linkhash.c / printbuf.c not in the build")
+        c06.r3_resize(chk, prog, ml)
+        c19.r_extend(chk, prog, mp)
+        c19.r_writers(chk, prog, mp)
     chk.undecided_clauses += [
         "that the k-th dynamic allocation of a given workload is handled (fault enumeration is a dynamic technique)",
         "absence of crashes inside libc",
@@ -150,11 +151,12 @@ def r3(chk, prog):
                 chk.proven("C08.R3", f.name, sig, i.locstr(), "result %s" % "/".join(sorted(fates)))
             else:
                 dropped += 1
-                chk.refuted("C08.R3", f.name, sig, i.locstr(),
+                o = chk.refuted("C08.R3", f.name, sig, i.locstr(),
                             "result of %s is dropped (%s): an allocation failure inside it is invisible to the caller, "
                             "which goes on to return success with truncated text" % (what, "/".join(sorted(fates))),
                             {"call": i.raw})
-    chk.floor("C08.R3", sites, 80, "print-buffer API and indirect serializer call sites")
+                o.group = what          # a known finding may name "dropped results of <callee> in <function>"
+    chk.floor("C08.R3", sites, 50, "print-buffer API and indirect serializer call sites")
     chk.tables["R3_sites"] = {"total": sites, "dropped": dropped}
 
 
